@@ -100,10 +100,10 @@ def truth(test, facts, cc):
         return True if all(v is True for v in res) else None
     at = cc.truthy(U(test))
     r = _atom_truth(at, facts)
-    if r is None and isinstance(test, ast.Name):
-        # a local flag whose current definition on this path is a boolean literal
+    if r is None and isinstance(test, (ast.Name, ast.Attribute)):
+        # a flag (local or attribute) whose current definition on this path is a boolean literal
         for a in facts:
-            if a[0] == 'def' and a[1] == test.id and a[2] in ('True', 'False'):
+            if a[0] == 'def' and a[1] == U(test) and a[2] in ('True', 'False'):
                 return a[2] == 'True'
     return r
 
@@ -161,7 +161,28 @@ def facts_true(test, facts, cc):
         return out
     if isinstance(test, ast.Constant):
         return set()
-    return {cc.truthy(U(test))}
+    out = {cc.truthy(U(test))}
+    d = _flag_def(test, facts)
+    if d is not None:
+        out |= facts_true(d, facts, cc)
+    return out
+
+
+def _flag_def(test, facts, _depth=[0]):
+    """a local flag whose definition on this path is a boolean expression (comparison / and / or / not / call-free
+    name): the expression node, else None.  The def fact is only present while none of its operands was re-assigned."""
+    if not isinstance(test, ast.Name) or _depth[0] > 3:
+        return None
+    for a in facts:
+        if a[0] == 'def' and a[1] == test.id and isinstance(a[2], str) and a[2] not in ('True', 'False', test.id):
+            try:
+                e = ast.parse(a[2], mode='eval').body
+            except SyntaxError:
+                return None
+            if isinstance(e, (ast.Compare, ast.BoolOp)) or (isinstance(e, ast.UnaryOp) and isinstance(e.op, ast.Not)):
+                if not any(isinstance(x, ast.Name) and x.id == test.id for x in ast.walk(e)):
+                    return e
+    return None
 
 
 def facts_false(test, facts, cc):
@@ -200,7 +221,11 @@ def facts_false(test, facts, cc):
     if isinstance(test, ast.Constant):
         return set()
     a = cc.truthy(U(test))
-    return {neg_atom(a)}
+    out = {neg_atom(a)}
+    d = _flag_def(test, facts)
+    if d is not None:
+        out |= facts_false(d, facts, cc)
+    return out
 
 
 def _target_names(t, out):
